@@ -767,10 +767,16 @@ def readLits : PArgs → Option (List Expr)
     | some j, some es => (match litOf j with | some e => some (e :: es) | none => none)
     | _, _ => none
 
+/-- the directive a callee names -/
+def dirOfCallee (f : PE) : Option Bytes :=
+  match qnameOf f with
+  | some q => dirOfJs q
+  | none => none
+
 /-- `dN(…d1(e, a…)…, a…)`: the expression and the calls of library functions around it, innermost first -/
 def readPrint : PE → Option (JsExpr × List Directive)
   | .call f (.cons a as) =>
-    (match (match qnameOf f with | some q => dirOfJs q | none => none) with
+    (match dirOfCallee f with
       | some name =>
         (match readPrint a, readLits as with
           | some (e, ds), some args => some (e, ds ++ [⟨0, name, args⟩])
